@@ -26,7 +26,7 @@ na = [{"property_id": pid, "reason": props.NOT_APPLICABLE.get(pid, "no check bui
       for pid in ALL if pid not in props.PROPS]
 m = {
     "version": 1,
-    "setup_cmd": "cd /verif/vx && cargo build --release --offline && (cd /repo && CARGO_NET_OFFLINE=true timeout 900 cargo kani --target-dir /verif/.cache/kani-target --harness encode_constants_exact >/dev/null 2>&1 || true)",
+    "setup_cmd": "cd /verif/vx && cargo build --release --offline && (cd /repo && CARGO_NET_OFFLINE=true timeout 900 cargo kani --target-dir /verif/.cache/kani-target --harness encode_constants_exact >/dev/null 2>&1 || true; CARGO_NET_OFFLINE=true timeout 900 cargo kani --target-dir /verif/.cache/kani-target -Z stubbing --harness tu64_decodes_exactly >/dev/null 2>&1 || true)",
     "hooks": {
         "guard": "cfg(any(kani, feature = \"verif\"))",
         "enable": "cargo test --offline --features verif (native replay); cargo kani (sets cfg(kani)) for the leaf harnesses in src/verif_hooks.rs",
